@@ -117,5 +117,20 @@ class Modules:
 		"""
 		if module_path in self.__modules:
 			module = self.__modules[module_path]
+			dependant_paths = self.__dependant_paths(module_path)
 			self.__loader.unload(module.module_path)
 			del self.__modules[module_path]
+
+			# XXX 依存元のモジュールは、このモジュールのシンボルを参照しているため併せてアンロード(次回ロード時に依存モジュールごと再構築)
+			for dependant_path in dependant_paths:
+				self.unload(dependant_path)
+
+	def __dependant_paths(self, module_path: str) -> list[str]:
+		"""指定のモジュールをインポートしている読み込み済みモジュールのパスを取得
+
+		Args:
+			module_path: モジュールパス
+		Returns:
+			モジュールパスリスト
+		"""
+		return [path for path, module in self.__modules.items() if path != module_path and module_path in [import_node.import_path.tokens for import_node in module.entrypoint.imports]]
